@@ -18,7 +18,7 @@ RULE = (
     "(float32 tolerance), the antimeridian set = faces with an edge spanning >= 180 degrees (relative to the projection's central "
     "longitude), 'exclude' drops exactly those, 'split' pieces lie in [-180, 180], do not span the antimeridian and cover the "
     "face (sampled containment both ways), data values sit on the polygons of their own faces (matched by geometry); objects "
-    "returned earlier are re-inspected after every later call. Non-trivial = the mesh has antimeridian faces or mixed sizes "
+    "returned earlier are re-inspected after every later call. A quarter of the grids carry Cartesian node coordinates at radius 6371229. Non-trivial = the mesh has antimeridian faces or mixed sizes "
     "and the history has >= 2 calls with different arguments; distinct by case hash."
 )
 ASSUMPTIONS = [
